@@ -54,6 +54,7 @@ Full statement / proved / missing
                          hash-literal shape `DefShape`), any two of its types and any two instances made by either
                          constructor, `Equals` is total and characterised as in `C17_equality` — the hypotheses `WF`, `Valid`
                          and `hname` are all discharged (`C17_wf_env`, `C17_typed_env`, `C17_valid_named`, `C17_names_identify`).
+* `C17x_equality_env`  — the same end to end with type parameters (instances of `T` and of `T[p => v]`).
 * `C17_laws_env`       — proved, END TO END: for any accepted list of definitions, any of its types and any values — Get = given or
                          default, positional = named, and the init-hash round trip for every instance EITHER constructor makes.
 * `C17_subtype`        — proved: an ancestor (any non-empty suffix of the level list) accepts every instance;
@@ -1643,6 +1644,42 @@ theorem C17_laws_env {ds : List Def} {env : List OType} (h : defineAll [] ds = .
     obtain ⟨o', h1, -, h2, h3, -⟩ := C17_inithash hv (by rw [hto]; exact hw) hvo
     rw [hto] at h1
     exact ⟨o', h1, h2, h3⟩
+
+/-- END TO END with type parameters: for any accepted list of definitions, any two of its types and any two instances
+    made by either constructor of Model/ObjectParams (so: instances of `T` and of `T[p => v]`), `Equals` is characterised as
+    in `C17x_equality`, no side condition left -/
+theorem C17x_equality_env {ds : List Def} {env : List OType} (h : defineAll [] ds = .ok env)
+    (hds : ∀ d ∈ ds, DefShape d) {i j : Nat} {t t' : OType} (hi : env[i]? = some t) (hj : env[j]? = some t')
+    {o o' : PObj} (ho : (∃ vs, newPosX t vs = .ok o) ∨ (∃ es hv, newNamedX t es hv = .ok o))
+    (ho' : (∃ vs, newPosX t' vs = .ok o') ∨ (∃ es hv, newNamedX t' es hv = .ok o')) :
+    equalsX o o' = .ok true ↔
+      ((sameTypeX o o' = true ∧ ∀ n ∈ eqAttrNames o.obj.typ, get o.obj n = get o'.obj n) ∨
+       (sameTypeX o o' = false ∧ includesType o.obj.typ = false ∧ includesType o'.obj.typ = false ∧
+          (eqAttrNames o.obj.typ).length = (eqAttrNames o'.obj.typ).length ∧
+          ∀ n ∈ eqAttrNames o.obj.typ, n ∈ eqAttrNames o'.obj.typ ∧ get o.obj n = get o'.obj n)) := by
+  have hwf := C17_wf_env (env0 := []) (by simp) hds h
+  have hty := C17_typed_env (env0 := []) (by simp) h
+  have hmem : t ∈ env := List.mem_of_getElem? hi
+  have hmem' : t' ∈ env := List.mem_of_getElem? hj
+  have hmk : ∀ {u : OType} {x : PObj}, u ∈ env →
+      ((∃ vs, newPosX u vs = .ok x) ∨ (∃ es hv, newNamedX u es hv = .ok x)) → x.obj.typ = u ∧ Valid x.obj := by
+    intro u x hu hx
+    have hv := C17x_valid (hwf u hu).2 (hty u hu)
+    rcases hx with ⟨vs, hx⟩ | ⟨es, hv', hx⟩
+    · exact ⟨(newPosX_ok (hwf u hu).2 hx).1, hv.1 vs x hx⟩
+    · refine ⟨?_, hv.2 es hv' x hx⟩
+      unfold newNamedX at hx
+      by_cases hm : namedMatches (attrInfo u) es = true
+      · by_cases hc : coerceOk (attrInfo u) es = true
+        · simp only [hm, hc, if_true, pfh_result hm] at hx
+          cases hx; rfl
+        · simp [hm, hc] at hx
+      · simp only [hm, Bool.false_eq_true, if_false] at hx
+        exact (newPosX_ok (hwf u hu).2 hx).1
+  obtain ⟨hot, hov⟩ := hmk hmem ho
+  obtain ⟨hot', hov'⟩ := hmk hmem' ho'
+  exact C17x_equality (by rw [hot]; exact (hwf t hmem).2) (by rw [hot']; exact (hwf t' hmem').2) hov hov'
+    (by rw [hot, hot']; exact C17_names_identify h hi hj)
 
 /-! ### `Get` is well-typed — through any ancestor's declaration -/
 
